@@ -10,8 +10,8 @@ import nrun
 import pool
 from common import cerberus, real_error
 
-LEVEL = "translation_validation"
-COQ_FILES = ["theories/Model/Normalize.v"]
+LEVEL = "proof"
+COQ_FILES = ["theories/Model/Worklist.v", "theories/Model/Normalize.v", "theories/Proofs/WorklistProofs.v", "theories/Proofs/DefaultsProofs.v", "theories/Properties/C17.v"]
 FACT_GROUPS = ["F11"]
 ALLOWED_AXIOMS = []
 TRUSTED_BASE = [
